@@ -88,7 +88,12 @@ pub fn systematic(prop: &str, tier: Tier, seed: u64) -> Vec<Case> {
     match prop {
         "C04" => crate::hostile::systematic(tier == Tier::Thorough, seed),
         "C17" => crate::profiles::systematic_resume(tier == Tier::Thorough, seed),
-        "C05" | "C06" => crate::profiles::systematic_ack_permutations(tier == Tier::Thorough),
+        "C05" | "C06" => {
+            let mut v = crate::profiles::systematic_ack_permutations(tier == Tier::Thorough);
+            let (more, _capped) = crate::profiles::systematic_interleavings(tier == Tier::Thorough);
+            v.extend(more);
+            v
+        }
         "C13" => crate::profiles::systematic_termination(tier == Tier::Thorough, seed),
         "C14" => crate::profiles::systematic_teardown(tier == Tier::Thorough, seed),
         "C15" => crate::profiles::systematic_cancel(tier == Tier::Thorough, seed),
@@ -137,6 +142,7 @@ pub fn generate(prop: &str, _tier: Tier, rng: &mut Rng, _idx: u64) -> Case {
                 1 | 2 => Some(1),
                 3 => Some(2),
                 4 => Some(3),
+                5 if rng.chance(1, 4) => Some(*rng.pick(&[16u16, 100])),
                 _ => Some(rng.range(1, 10) as u16),
             };
             cfg.w_ops = [rng.range(0, 2) as u32, 4, 4, rng.range(0, 1) as u32, 0, rng.range(0, 1) as u32];
